@@ -1018,6 +1018,12 @@ def run_kani(kani_obs, scratch, results, stage_record, extra_tests=None, playbac
     gov = MemGovernor(MEM_CAP_GB)
 
     def job(ob):
+        try:
+            job_inner(ob)
+        except Exception as e:  # never let a tool hiccup look like anything but "undecided"
+            results[ob.id] = {"state": "undecided", "reason": "tool failure: %r" % (e,), "seconds": 0}
+
+    def job_inner(ob):
         gov.acquire(ob.mem_gb)
         try:
             lf = logs / (ob.id + ".log")
